@@ -109,6 +109,13 @@ class BuiltinMixin:
 
     def bi_len(self, args, kw, st, cx, node):
         v = args[0]
+        if isinstance(v, VRec) and isinstance(v.sort, TKDict):
+            n = z3.IntVal(0)
+            for k in v.sort.keys:
+                n = n + z3.If(v.sort.get(v.t, "p_" + k), 1, 0)
+            extra = z3.FreshConst(z3.IntSort(), "nother")
+            st.pc.append(z3.And(extra >= 0, (extra >= 1) == v.sort.get(v.t, "other")))
+            return [(st, VInt(n + extra))]
         if isinstance(v, VUnion):
             v = self.narrow(st, v, TList(Str))
             if isinstance(v, VUnion):
@@ -142,6 +149,19 @@ class BuiltinMixin:
 
     def bi_int(self, args, kw, st, cx, node):
         v = args[0]
+        if isinstance(v, VUnion):
+            tg = PyU.tag(v.t)
+            outs = []
+            num, rest = self.fork(st, z3.Or(tg == 2, tg == 3))
+            if num is not None:
+                outs.append((num, VInt(z3.If(tg == 2, PyU.i(v.t), z3.If(PyU.b(v.t), 1, 0)))))
+            if rest is not None:
+                s_, other = self.fork(rest, tg == 1)
+                if s_ is not None:
+                    outs.extend(self.bi_int([VStr(PyU.s(v.t))], kw, s_, cx, node))
+                if other is not None and not cx.spec:
+                    self.raise_(cx, other, "builtins.TypeError")
+            return outs
         if isinstance(v, (VInt, VBool)):
             return [(st, coerce(v, Int))]
         if isinstance(v, VStr):
@@ -214,13 +234,14 @@ class BuiltinMixin:
             k = v.sort.get(v.t, "kind")
             m = {"builtins.str": [K_STR], "builtins.int": [K_INT, K_BOOL], "builtins.bool": [K_BOOL], "builtins.float": [K_FLOAT]}
             return z3.Or(*[k == x for x in m.get(tq, [])]) if m.get(tq) else z3.BoolVal(False)
+        if isinstance(v, VRec) and isinstance(v.sort, TUnionRec):
+            subs = [m for m in v.sort.members if self.repo.is_subclass(m, tq)]
+            return z3.Or(*[v.sort.get(v.t, "tag") == self.class_id(m) for m in subs]) if subs else z3.BoolVal(False)
+        if isinstance(v, VRec) and isinstance(v.sort, TKDict):
+            return z3.BoolVal(tq == "builtins.dict")
         if isinstance(v, VRec):
             if v.sort.cls is None:
                 return z3.BoolVal(False)
-            if "tag" in [f for f, _ in v.sort.fields] and v.sort.nm.startswith("U_"):
-                # union record: tag = class id
-                subs = self.repo.subclasses(tq)
-                return z3.Or(*[v.sort.get(v.t, "tag") == self.class_id(s) for s in subs])
             return z3.BoolVal(self.repo.is_subclass(v.sort.cls, tq))
         prim = {VStr: "builtins.str", VInt: "builtins.int", VBool: "builtins.bool", VList: "builtins.list",
                 VDict: "builtins.dict", VConcDict: "builtins.dict", VSet: "builtins.set"}
@@ -278,9 +299,9 @@ class BuiltinMixin:
             for kk, q in ids.items():
                 t = z3.If(k == kk, self.class_id(q), t)
             return [(st, VType(t))]
+        if isinstance(v, VRec) and isinstance(v.sort, TUnionRec):
+            return [(st, VType(v.sort.get(v.t, "tag")))]
         if isinstance(v, VRec) and v.sort.cls:
-            if v.sort.nm.startswith("U_"):
-                return [(st, VType(v.sort.get(v.t, "tag")))]
             return [(st, self.vtype(v.sort.cls))]
         prim = {VStr: "builtins.str", VInt: "builtins.int", VBool: "builtins.bool", VList: "builtins.list",
                 VConcDict: "builtins.dict", VDict: "builtins.dict"}
@@ -419,7 +440,7 @@ class BuiltinMixin:
         if not args:
             return [(st, VConcDict([(VStr(k), v) for k, v in kw.items()]))]
         v = args[0]
-        if isinstance(v, (VConcDict, VDict)):
+        if isinstance(v, (VConcDict, VDict)) or (isinstance(v, VRec) and isinstance(v.sort, TKDict)):
             return [(st, v)]
         items = self.iter_items(v, st, cx)
         if items is not None:
@@ -539,6 +560,10 @@ class BuiltinMixin:
     def bi_cls_is(self, args, kw, st, cx, node):
         "cls_is(obj, 'qualified.Class'): exact class"
         return [(st, VBool(z3.And(args[0].t != 0, self.cls_of(args[0]) == self.class_id(args[1].conc()))))]
+
+    def bi_cls(self, args, kw, st, cx, node):
+        "cls('qualified.Class'): the class object (for isinstance in contract expressions)"
+        return [(st, self.vtype(self.repo.canonical(args[0].conc())))]
 
     def bi_typename(self, args, kw, st, cx, node):
         return [(st, self.vtype(args[0].conc()))]
@@ -817,7 +842,26 @@ class BuiltinMixin:
             raise Unsupported("str.format")
         raise Unsupported("str.%s" % m)
 
+    def kdict_method(self, b, m, args, st, cx):
+        ks = b.sort
+        if m == "get":
+            k = args[0].conc()
+            d = args[1] if len(args) > 1 else VNone()
+            if k is None:
+                raise Unsupported("dict.get with a symbolic key on a keyed dict")
+            if k not in ks.keys:
+                return [(st, d)] if True else []
+            v = mk_val(ks.get(b.t, "v_" + k), ks.keys[k])
+            return [(st, self.ite(ks.get(b.t, "p_" + k), v, d))]
+        if m == "keys":
+            return [(st, VKeys(b))]
+        if m == "items":
+            return [(st, VKeys(b, items=True))]
+        raise Unsupported("dict.%s on a keyed dict" % m)
+
     def dict_method(self, b, m, args, st, cx):
+        if isinstance(b, VRec):
+            return self.kdict_method(b, m, args, st, cx)
         if m == "get":
             k = args[0]
             d = args[1] if len(args) > 1 else VNone()
@@ -850,6 +894,22 @@ class BuiltinMixin:
                 return [(st, VIter([VTuple([k, v]) for k, v in b.items]))]
             return [(st, VItems(b))]
         raise Unsupported("dict.%s" % m)
+
+
+class VKeys(Val):
+    "keys() / items() view of a keyed dict"
+
+    def __init__(self, d, items=False):
+        self.d = d
+        self.items = items
+
+
+class VGuard(Val):
+    "an element that is only present under a condition (iteration over the keys of a keyed dict)"
+
+    def __init__(self, cond, val):
+        self.cond = cond
+        self.val = val
 
 
 class VRange(Val):
